@@ -63,7 +63,7 @@ CHECKS = {
         design_ref="DESIGN.md section 5 C08",
     ),
     "C04": dict(
-        level="differential_testing",
+        level="model_checking",
         text="Encodings.tla states the page encodings as decoders written from the format document (PLAIN, RLE/bit-packed "
              "hybrid, BIT_PACKED, dictionary indexes, DELTA_BINARY_PACKED with byte-wise wrap-around arithmetic, "
              "DELTA_LENGTH_BYTE_ARRAY, DELTA_BYTE_ARRAY, BYTE_STREAM_SPLIT), self-checked on hand-worked examples of that "
@@ -101,7 +101,7 @@ CHECKS = {
         design_ref="DESIGN.md section 5 C06",
     ),
     "C02": dict(
-        level="differential_testing",
+        level="model_checking",
         text="FileLayout.tla is an independent reader of Parquet files written in TLA+ from the format documents: it parses "
              "the footer and every page header with Thrift.tla, decompresses with Snappy.tla, checks CRC-32, decodes levels "
              "and values with Encodings.tla and re-derives every offset, size, value/row/null count, encoding list and "
@@ -263,7 +263,7 @@ CHECKS = {
         design_ref="DESIGN.md section 5 C18",
     ),
     "C19": dict(
-        level="differential_testing",
+        level="model_checking",
         text="Variant.tla states the variant binary encoding (metadata dictionary, primitives, short strings, objects "
              "with sorted unique keys, arrays, large layouts) as a decoder over bytes, value equality, and the "
              "value/typed_value reconstruction rule for primitive shreddings. TLC enumerates value kinds and shredding "
